@@ -4,6 +4,13 @@
 use super::*;
 include!("common.inc");
 
+// read access for contract modules of other files
+impl ReactCache {
+    pub(crate) fn verif_despawn_len(&self, e: Entity) -> usize { match self.despawn_reactors.get(&e) { Some(v) => v.len(), None => 0 } }
+    /// is a despawn report pending on the channel? (consumes it)
+    pub(crate) fn verif_despawn_pending(&self) -> bool { self.despawn_receiver.try_recv().is_ok() }
+}
+
 fn tid(k: u8) -> TypeId { match k { 0 => TypeId::of::<u8>(), 1 => TypeId::of::<u16>(), _ => TypeId::of::<u32>() } }
 fn h(id: SystemCommand) -> ReactorHandle { ReactorHandle::Persistent(id) }
 fn fixed_sys(i: u32) -> SystemCommand { SystemCommand(Entity::verif_new(1000 + i, 1)) }
